@@ -10,10 +10,10 @@
 #include <array>
 
 namespace opensmt {
-std::array<std::string, 22> logicToName = {{"Undef",     "Empty",   "QF_UF",     "QF_BV",     "QF_RDL",   "QF_IDL",
-                                            "QF_LRA",    "QF_LIA",  "QF_UFRDL",  "QF_UFIDL",  "QF_UFLRA", "QF_UFLIA",
-                                            "QF_UFBV",   "QF_AX",   "QF_AXDIFF", "QF_ALRA",   "QF_ALIA",  "QF_AUFLRA",
-                                            "QF_AUFLIA", "QF_BOOL", "QF_AUFBV",  "QF_AUFLIRA"}};
+std::array<std::string, 26> logicToName = {{"Undef",     "Empty",     "QF_UF",     "QF_BV",      "QF_RDL",   "QF_IDL",   "QF_LRA",
+                                            "QF_LIA",    "QF_NIA",    "QF_NRA",    "QF_LIRA",    "QF_NIRA",  "QF_UFRDL", "QF_UFIDL",
+                                            "QF_UFLRA",  "QF_UFLIA",  "QF_UFBV",   "QF_AX",      "QF_AXDIFF", "QF_ALRA", "QF_ALIA",
+                                            "QF_AUFLRA", "QF_AUFLIA", "QF_BOOL",   "QF_AUFBV",   "QF_AUFLIRA"}};
 
 Logic_t getLogicFromString(std::string_view name) {
     if (name == "QF_UF") return Logic_t::QF_UF;
